@@ -94,6 +94,17 @@ class Sim:
         self.expect_external(uid, name, due)
         return uid
 
+    def queue_anon(self, name, delay=None):
+        """an external event without any distinguishing parameter (two of them, or one and an internal event of that name and
+        delay, compare equal)"""
+        if delay is None:
+            self.it.queue(name)
+            due = self.lastT
+        else:
+            self.it.queue(name, delay=delay)
+            due = self.lastT + F(delay)
+        self.expect_external(None, name, due)
+
     def queue_pair(self, n1, d1, n2, d2, first_is_instance):
         """one call with two events, one given as an Event instance and one by name: the keyword parameters belong to the
         one given by name only"""
